@@ -98,3 +98,13 @@ Fixpoint upd {A} (i : nat) (x : A) (l : list A) : list A :=
   | y :: r, S j => y :: upd j x r
   end.
 
+
+(* enqueued items tagged with their producer, in linearisation order *)
+Fixpoint tenqs (evs : list event) : list (nat * N) :=
+  match evs with
+  | [] => []
+  | EEnq t v :: r => (t, v) :: tenqs r
+  | _ :: r => tenqs r
+  end.
+
+Definition from_producer (p : nat) (x : nat * N) : bool := Nat.eqb (fst x) p.
